@@ -95,12 +95,19 @@ Admit(mt0, attr, isRoot, isDyn) ==
 (* builder state st = [slots, redirects, pend, dynq, inDyn, roots]         *)
 (* pend item = [s, root, dyn, ref, attr, count]; dynq item = [s, ref, attr]*)
 (***************************************************************************)
-EmptySt == [slots |-> EmptyFn, redirects |-> EmptyFn, pend |-> <<>>, dynq |-> <<>>, inDyn |-> FALSE, roots |-> <<>>]
+\* npmSet: the npm: specifiers when an NpmResolver is supplied; npmq: PendingNpmResolutionItem list [s, ref, dyn]
+EmptySt == [slots |-> EmptyFn, redirects |-> EmptyFn, pend |-> <<>>, dynq |-> <<>>, inDyn |-> FALSE, roots |-> <<>>,
+            npmSet |-> {}, npmq |-> <<>>]
+HasNpm(w) == "npm" \in DOMAIN w
+NpmOn(w) == IF HasNpm(w) /\ w.npm.on THEN { s \in DOMAIN w.mods : w.mods[s].k = "npm" } ELSE {}
 
 \* load_with_redirect_count 5506-5696 (URL scheme only): one redirect level, existing-slot short-circuit
 LoadC(st, s0, isRoot, isDyn, ref, attr, count) ==
   LET s == IF s0 \in DOMAIN st.redirects THEN st.redirects[s0] ELSE s0 IN
   IF s \in DOMAIN st.slots THEN st
+  \* load_npm_specifier 5946-5975: no slot is created, the item waits for the resolution pass (so a second import of
+  \* the same specifier is queued again)
+  ELSE IF s \in st.npmSet THEN [st EXCEPT !.npmq = Append(st.npmq, [s |-> s, ref |-> ref, dyn |-> isDyn])]
   ELSE [st EXCEPT !.slots = Put(st.slots, s, [k |-> "pending"]),
                   !.pend = Append(st.pend, [s |-> s, root |-> isRoot, dyn |-> isDyn, ref |-> ref, attr |-> attr, count |-> count, landed |-> FALSE])]
 Load(st, s, isRoot, isDyn, ref, attr) == LoadC(st, s, isRoot, isDyn, ref, attr, 0)
@@ -157,7 +164,7 @@ Consume(w, st, o) ==
       resp == w.mods[s]
   IN IF resp.k = "missing" THEN [st0 EXCEPT !.slots = Put(st0.slots, s, ErrSlot("missing", it.ref))]
      ELSE IF resp.k = "err" THEN [st0 EXCEPT !.slots = Put(st0.slots, s, ErrSlot("load", it.ref))]
-     ELSE IF resp.k = "external" THEN
+     ELSE IF resp.k \in {"external", "npm"} THEN      \* an npm: specifier without resolver is the loader's business
           [st0 EXCEPT !.slots = Put(st0.slots, s, [k |-> "mod", cls |-> "ext", mt |-> "ext", chk |-> "no", deps |-> <<>>, tdep |-> NONE, tdepText |-> ""])]
      ELSE IF resp.k = "redirect" THEN
           IF it.count >= o.maxRedirects THEN [st0 EXCEPT !.slots = Put(st0.slots, s, ErrSlot("toomanyredirects", it.ref))]
@@ -186,6 +193,39 @@ Drain(w, st, o) ==
   ELSE IF st.dynq # <<>> /\ ~st.inDyn THEN Drain(w, EnterDyn(st), o)
   ELSE st
 
+(***************************************************************************)
+(* NpmSpecifierResolver::resolve / fill_graph 6861-7008.                   *)
+(* Static-branch items are resolved in one call grouped by requirement;    *)
+(* dynamic-branch items one at a time, and those also fail when the        *)
+(* dependency graph resolution fails. Results go to a map keyed by         *)
+(* specifier (a later item of the same specifier overwrites), which is     *)
+(* merged into the graph keeping existing entries.                         *)
+(***************************************************************************)
+NpmSlot == [k |-> "mod", cls |-> "npm", mt |-> "npm", chk |-> "no", deps |-> <<>>, tdep |-> NONE, tdepText |-> ""]
+NpmResult(w, it) ==
+  IF w.mods[it.s].req \in w.npm.failing THEN ErrSlot("npm", it.ref)
+  ELSE IF it.dyn /\ w.npm.depFail THEN ErrSlot("npm", it.ref)
+  ELSE NpmSlot
+RECURSIVE NpmPut(_, _, _, _)
+NpmPut(w, items, i, acc) == IF i > Len(items) THEN acc ELSE NpmPut(w, items, i + 1, Put(acc, items[i].s, NpmResult(w, items[i])))
+NpmFill(w, st) ==
+  IF st.npmq = <<>> THEN st
+  ELSE LET main == SelectSeq(st.npmq, LAMBDA it : ~it.dyn)
+           dynI == SelectSeq(st.npmq, LAMBDA it : it.dyn)
+           \* items of one specifier share their requirement, so grouping by requirement keeps their relative order
+           pendingInfo == NpmPut(w, dynI, 1, NpmPut(w, main, 1, EmptyFn))
+       IN [st EXCEPT !.npmq = <<>>,
+                     !.slots = [s \in (DOMAIN st.slots) \cup (DOMAIN pendingInfo) |->
+                                  IF s \in DOMAIN st.slots THEN st.slots[s] ELSE pendingInfo[s]]]
+\* declarative reading (C03): every requested npm specifier is settled; it is an error entry carrying a referrer
+\* exactly when its requirement fails, or the dependency graph fails and it was requested from a dynamic branch
+NpmSettled(w, g, requested) ==
+  \A s \in requested :
+     /\ s \in DOMAIN g.slots
+     /\ g.slots[s].k \in {"mod", "err"}
+     /\ (w.mods[s].req \in w.npm.failing) => (g.slots[s].k = "err" /\ g.slots[s].ref # "-")
+     /\ (w.mods[s].req \notin w.npm.failing /\ ~w.npm.depFail) => g.slots[s] = NpmSlot
+
 RECURSIVE LoadRoots(_, _, _, _)
 LoadRoots(st, roots, i, o) ==
   IF i > Len(roots) THEN st ELSE LoadRoots(Load(st, roots[i], TRUE, o.isDynamic, "-", "none"), roots, i + 1, o)
@@ -199,8 +239,8 @@ NewRoots(have, roots, i) ==
   ELSE <<roots[i]>> \o NewRoots(have \cup {roots[i]}, roots, i + 1)
 BuildOn(w, g, roots, o) ==
   LET nr == NewRoots(SeqToSet(g.roots), roots, 1)
-      st0 == [EmptySt EXCEPT !.slots = g.slots, !.redirects = g.redirects, !.inDyn = o.isDynamic]
-      st == Drain(w, LoadRoots(st0, nr, 1, o), o)
+      st0 == [EmptySt EXCEPT !.slots = g.slots, !.redirects = g.redirects, !.inDyn = o.isDynamic, !.npmSet = NpmOn(w)]
+      st == NpmFill(w, Drain(w, LoadRoots(st0, nr, 1, o), o))
   IN [g EXCEPT !.roots = g.roots \o nr, !.slots = st.slots, !.redirects = st.redirects]
 Build(w, roots, o) == BuildOn(w, Graph0(o.kind, w.sch), roots, o)
 
@@ -212,8 +252,8 @@ ReloadLoads(g, st, specs, i, o) ==
            st1 == [st EXCEPT !.slots = Del(st.slots, s)]
        IN ReloadLoads(g, Load(st1, s, TRUE, o.isDynamic, "-", "none"), specs, i + 1, o)
 Reload(w, g, specs, o) ==
-  LET st0 == [EmptySt EXCEPT !.slots = g.slots, !.redirects = g.redirects, !.inDyn = o.isDynamic]
-      st == Drain(w, ReloadLoads(g, st0, specs, 1, o), o)
+  LET st0 == [EmptySt EXCEPT !.slots = g.slots, !.redirects = g.redirects, !.inDyn = o.isDynamic, !.npmSet = NpmOn(w)]
+      st == NpmFill(w, Drain(w, ReloadLoads(g, st0, specs, 1, o), o))
   IN [g EXCEPT !.slots = st.slots, !.redirects = st.redirects]
 
 NoPending(g) == \A s \in DOMAIN g.slots : g.slots[s].k # "pending"
